@@ -700,3 +700,107 @@ def r_helmert_algebra(cx):
         cx.ob("R-HELMERT-ALGEBRA", "%s/forward-form" % label, okf,
               "helmert forward (%s) is T + S*%sx element by element" % (label, "R*" if rot else "") if okf else
               "helmert forward (%s) is not T + S*%sx" % (label, "R*" if rot else ""), F[0]["where"])
+
+
+# ---------------------------------------------------------------------------------------------------------------------
+# R-RATE-PAIRING (C07): every Helmert parameter is advanced in time by its own rate, under the same condition
+
+def _keys_deep(f, t):
+    """all parameter keys (real/series/text reads with a literal key) in t, looking through loop-carried values"""
+    keys = set()
+    seen = set()
+
+    def visit(x):
+        if x[0] == "call" and isinstance(x[1], str) and x[1].startswith(K.PP + "::") and len(x[2]) > 1:
+            k = K._const_key(x[2][1])
+            if k:
+                keys.add(k)
+        if x[0] == "loopphi" and x[1] not in seen:
+            seen.add(x[1])
+            d = f.phi_def(x)
+            if d is not None and d[0] == "phi":
+                for o in d[2]:
+                    mir.walk(o, visit)
+        return True
+
+    mir.walk(t, visit)
+    return keys
+
+
+@rule("R-RATE-PAIRING", ["C07"])
+def r_rate_pairing(cx):
+    """(a) helmert::new: the values stored as T, R, S (after the optional fold to `t_obs`) depend only on the aliases
+    of that parameter and of its own rate (T: x/y/z/translation + dx/dy/dz/velocity, ...), never on another
+    parameter's rate. (b) helmert_common: each per-tuple refresh has the form P + dt*DP with matching keys, and the
+    scale is refreshed under exactly the same conditions as the translation."""
+    want = spec("helmert_aliases.json")
+    groups = {}
+    for name, row in want["vectors"].items():
+        groups[name] = set(row["scalars"]) | {row["list"]}
+    for name, row in want["scalars"].items():
+        groups[name] = set(row)
+    f = cx.f.fn("inner_op::helmert::new")
+    ins = {key: val for (bb, m, key, val) in K.inserts_in(cx.f, f) if m in ("series", "real") and val is not None}
+    n = 0
+    timekeys = {"t_obs", "t_epoch"}
+    for p in ("T", "R", "S"):
+        v = ins.get(p)
+        if v is None:
+            continue
+        n += 1
+        got = _keys_deep(f, v)
+        allowed = groups.get(p, set()) | groups.get("D" + p, set()) | timekeys
+        foreign = sorted(k for k in got if k not in allowed and any(k in g for g in groups.values()))
+        cx.ob("R-RATE-PAIRING", "new/%s" % p, not foreign,
+              "the stored %s depends on its own aliases and on the rate D%s only" % (p, p) if not foreign else
+              "helmert::new: the stored %s depends on %s - the parameters of another quantity (the fold to t_obs must "
+              "advance %s with D%s)" % (p, ", ".join(foreign), p, p), cx.where(f.d["span"]))
+    # (b) the per-tuple refresh
+    g = cx.f.fn("inner_op::helmert::helmert_common")
+    pairs = 0
+    defs_of = {}
+    for bb, i, s in g.all_stmts():
+        if s["k"] != "assign" or s["rv"]["k"] != "bin" or s["rv"].get("op") != "Add":
+            continue
+        if g.innermost_loop(bb) is None:
+            continue
+        a = g.operand(s["rv"]["a"], (bb, i))
+        b = g.operand(s["rv"]["b"], (bb, i))
+        if not (b[0] == "bin" and b[1] == "Mul"):
+            continue
+        ka = _keys_deep(g, a)
+        kb = _keys_deep(g, b) - timekeys
+        if len(ka) == 1 and len(kb) == 1:
+            pa, pb = next(iter(ka)), next(iter(kb))
+            if pa in ("T", "R", "S"):
+                pairs += 1
+                ok = pb == "D" + pa
+                defs_of.setdefault(pa, set()).add(bb)
+                cx.ob("R-RATE-PAIRING", "common/%s#%d" % (pa, pairs), ok,
+                      "%s is advanced by dt * D%s" % (pa, pa) if ok else
+                      "helmert_common advances %s by dt * %s (must be D%s)" % (pa, pb, pa), cx.where(s.get("span") or g.d["span"]))
+    import slicing
+    cd = slicing.control_deps(g)
+
+    def deps(blocks):
+        out = set()
+        work = list(blocks)
+        while work:
+            x = work.pop()
+            for a in cd.get(x, ()):
+                if a not in out:
+                    out.add(a)
+                    work.append(a)
+        return out
+    if "T" in defs_of and "S" in defs_of:
+        dt_, ds_ = deps(defs_of["T"]), deps(defs_of["S"])
+        ok = dt_ == ds_
+        cx.ob("R-RATE-PAIRING", "common/S-condition", ok,
+              "the scale is refreshed under exactly the conditions under which the translation is refreshed" if ok else
+              "helmert_common refreshes the scale under other conditions than the translation (e.g. only when the "
+              "operator has rotations): with a scale rate the scale then stays at its epoch value", cx.where(g.d["span"]))
+    else:
+        cx.ob("R-RATE-PAIRING", "common/S-condition", False,
+              "helmert_common: no per-tuple refresh of the form T + dt*DT and S + dt*DS found", cx.where(g.d["span"]))
+    cx.count("R-RATE-PAIRING", "refresh_statements", pairs)
+    cx.count("R-RATE-PAIRING", "stored", n)
